@@ -112,6 +112,8 @@ def scenario_projects() -> List[Dict[str, Any]]:
                  "class Sub(Base):\n    '''sub'''\n    def m(self):\n        pass\n    attr = 2\n"
                  "class Sub2(Base):\n    '''sub2 defines the sibling itself'''\n    def m(self): pass\n    def other(self):\n        '''own'''\n"),
     ], [])
+    # ... and the subclass's own sibling of that name is hidden: the mis-shortened '#other' is then the address of a hidden object
+    S.append({"name": "inherited-docstring-late-fields-hidden-sibling", "units": S[-1]["units"], "privacy": ["HIDDEN:inl.Sub2.other"]})
     # hidden roots: the only root / one of two
     # class index: a base that could not be resolved although a class of that name exists (import cycle + re-export)
     # shares its dict key with that class, which is registered later and overwrites the entry
@@ -306,6 +308,9 @@ def random_project(rng) -> List[Unit]:
     for u in units:
         cands.append(u.qname)
     cands += ["f", "g", "x", "K.f", "Base", "_Q", "run", "nosuch.thing"]
+    # a project written in reStructuredText (the docformat of a package is inherited by its modules: all or nothing);
+    # no L{...} is planted there
+    rst_project = rng.random() < 0.08
     out = []
     for u in units:
         # names of the methods / functions of this unit: a late field often names a sibling by its bare name
@@ -330,22 +335,26 @@ def random_project(rng) -> List[Unit]:
             if rng.random() < 0.45 and cands:
                 return '"""%s %s see L{%s}' % (m.group(1), m.group(2), rng.choice(cands))
             return m.group(0)
-        src = XREF_HOOK.sub(plant, u.source)
-        src = DOC_HOOK.sub(plant2, src)
+        src = u.source
+        if not rst_project:
+            src = XREF_HOOK.sub(plant, src)
+            src = DOC_HOOK.sub(plant2, src)
         # a sectioned docstring (epytext and reStructuredText share the underlined-title syntax): sidebar tables of
         # contents, heading back-references
         r_sect = rng.random()
-        if 0.3 <= r_sect < 0.42 and "L{" not in src and not re.search(r"^\s*@(ivar|cvar|type|see|seealso|note|author|since)\b", src, flags=re.M):
-            # a reStructuredText module whose summaries hold internal references (`name_` -> `.. _name:`): the summary
-            # is copied to other pages (tables, moduleIndex, classIndex, all-documents), the target is not
-            src = re.sub(r'^("""module [^\n]*?)"""',
-                         lambda m: m.group(1) + " see details_ here.\n\nMore.\n\n.. _details:\n\nthe details\n" + '"' * 3,
-                         src, count=1, flags=re.M)
+        if rst_project:
+            # summaries that hold internal references (`name_` -> `.. _name:`): the summary is copied to other pages
+            # (tables, moduleIndex, classIndex, all-documents), the target is not
+            q3 = '"' * 3
+            if rng.random() < 0.7:
+                src = re.sub(r'^("""module [^\n]*?)"""',
+                             lambda m: m.group(1) + " see details_ here.\n\nMore.\n\n.. _details:\n\nthe details\n" + q3,
+                             src, count=1, flags=re.M)
             src = re.sub(r'^(    """doc of [^\n]*)\n    """',
-                         lambda m: m.group(1) + " with notes_ first.\n\n    .. _notes:\n\n    the notes\n    " + '"' * 3,
-                         src, flags=re.M)
-            if "__docformat__" not in src:
-                src += "\n__docformat__ = 'restructuredtext'\n"
+                         lambda m: (m.group(1) + " with notes_ first.\n\n    .. _notes:\n\n    the notes\n    " + q3)
+                         if rng.random() < 0.7 else m.group(0), src, flags=re.M)
+            src += "\n__docformat__ = 'restructuredtext'\n"
+            r_sect = 1.0
         if r_sect < 0.3:
             sect = "\n\nUsage\n=====\n\nuse it\n\nDetails\n-------\n\nmore\n"
             src = re.sub(r'^("""module [^\n]*?)"""', lambda m: m.group(1) + sect + '"""', src, count=1, flags=re.M)
@@ -354,12 +363,28 @@ def random_project(rng) -> List[Unit]:
         tops = re.findall(r"^([A-Za-z_][A-Za-z_0-9]*) = 1$", src, flags=re.M)
         if tops and rng.random() < 0.5:
             src = src.replace("(a, b=1):", "(a, b=%s):" % rng.choice(tops))
+        # a documented method with late-formatted fields naming a sibling, inherited by an override without docstring
+        # (the subclass sometimes defines the sibling itself, sometimes the sibling is private or nested deeper)
+        if not rst_project and rng.random() < 0.12:
+            a, b = rng.sample(["f", "g", "run", "_p", "x", "y"], 2)
+            tags = rng.sample(["see", "note", "author", "since", "seealso"], rng.choice([1, 2]))
+            ref = rng.choice([a, a, "LBase." + a])
+            fam = ["class LBase:", "    '''doc of LBase'''", "    def %s(self):" % a, "        '''m %s'''" % a,
+                   "    def %s(self):" % b, "        '''m %s%s\n" % (b, rng.choice(["", " see L{%s}" % a]))]
+            fam += ["        @%s: L{%s}" % (t, ref) for t in tags] + ["        '''"]
+            fam += ["class LSub(LBase):", "    def %s(self): pass" % b]
+            if rng.random() < 0.3:
+                fam += ["    def %s(self):" % a, "        '''own %s'''" % a]
+            if rng.random() < 0.3:
+                fam += ["class LSubSub(LSub):", "    '''doc of LSubSub'''", "    def %s(self): return 3" % b]
+            src += "\n" + "\n".join(fam) + "\n"
         out.append(Unit(u.qname, u.is_package, src, u.parent))
     # sometimes a package gets a __main__ module (private by default, rules apply; see random_privacy)
     pkgs = [u.qname for u in out if u.is_package]
     if pkgs and rng.random() < 0.15:
         pk = rng.choice(pkgs)
-        out.append(Unit(pk + ".__main__", False, "\'\'\'entry point see L{%s}\'\'\'\ndef main(argv):\n    \'\'\'run\'\'\'\n" % pk, pk))
+        out.append(Unit(pk + ".__main__", False, "\'\'\'entry point see %s\'\'\'\ndef main(argv):\n    \'\'\'run\'\'\'\n"
+                        % (pk if rst_project else "L{%s}" % pk), pk))
     return out
 
 
